@@ -44,7 +44,9 @@ PROFILES = {
             (2, _p(world="local", kinds=MF, p_noreport=0.08, p_callback_raise=0.2, p_wait=0.4, p_async_stop=0.0)), ],
     "C13": [(6, _p(world="mem", kinds=MF, p_fault_free=0.0, p_latency=0.5)),
             (2, _p(world="sim", kinds=MF_SIM, p_fault_free=0.0, fault_kinds=["crash"])),
-            (2, _p(world="local", kinds=MF, p_fault_free=0.0, p_async_stop=0.0)), ],
+            (2, _p(world="local", kinds=MF, p_fault_free=0.0, p_async_stop=0.0)),
+            (1, _p(world="mem", kinds=["hb_stopping_bo", "hb_promotion_bo", "hb_hypertune", "sync_hb_bo", "fifo_bo"], p_fault_free=0.0,
+                   fault_kinds=["crash"], max_trials=10, p_nodelay_false=0.05)), ],
     "C17": [(6, _p(world="mem", kinds=MF, p_extra=0.7, p_callback_raise=0.1, p_payload=0.3)),
             (2, _p(world="local", kinds=MF, p_extra=0.7, p_callback_raise=0.1, p_payload=0.3, p_async_stop=0.0)),
             (2, _p(world="sim", kinds=MF_SIM, fault_kinds=["crash"])), ],
